@@ -224,6 +224,75 @@ func g1Delegate(era, name string) string {
 	return pk.Name + "." + sel.Sel.Name
 }
 
+// g1ForwardsTo is the looser form used where the forwarding function first narrows
+// the protocol parameter type: the last statement is `return pkg.<name>(a, b, c, d)`
+// with as many arguments as the function has parameters, the first three being its own
+// first three parameters, and every other return in the body returns an error value
+// that is not a call to another rule. "self" otherwise.
+func g1ForwardsTo(era, name string) string {
+	p := loadPkg("ledger/" + era)
+	fd := findFunc(p, "", name)
+	if fd == nil || fd.Body == nil || len(fd.Body.List) == 0 {
+		return "missing"
+	}
+	names := []string{}
+	for _, fl := range fd.Type.Params.List {
+		for _, n := range fl.Names {
+			names = append(names, n.Name)
+		}
+	}
+	last, ok := fd.Body.List[len(fd.Body.List)-1].(*ast.ReturnStmt)
+	if !ok || len(last.Results) != 1 {
+		return "self"
+	}
+	call, ok := last.Results[0].(*ast.CallExpr)
+	if !ok || len(call.Args) != len(names) || len(names) < 3 {
+		return "self"
+	}
+	sel, ok := call.Fun.(*ast.SelectorExpr)
+	if !ok || sel.Sel.Name != name {
+		return "self"
+	}
+	pk, ok := sel.X.(*ast.Ident)
+	if !ok {
+		return "self"
+	}
+	for i := 0; i < 3; i++ {
+		id, ok := call.Args[i].(*ast.Ident)
+		if !ok || id.Name != names[i] {
+			return "self"
+		}
+	}
+	// no other statement may call a rule
+	other := false
+	for _, st := range fd.Body.List[:len(fd.Body.List)-1] {
+		ast.Inspect(st, func(n ast.Node) bool {
+			if c, ok := n.(*ast.CallExpr); ok {
+				if s2, ok := c.Fun.(*ast.SelectorExpr); ok && strings.HasPrefix(s2.Sel.Name, "UtxoValidate") {
+					other = true
+				}
+				if id, ok := c.Fun.(*ast.Ident); ok && strings.HasPrefix(id.Name, "UtxoValidate") {
+					other = true
+				}
+			}
+			return true
+		})
+	}
+	if other {
+		return "self"
+	}
+	return pk.Name + "." + sel.Sel.Name
+}
+
+func g1Forwardings(l *leanFile, leanName, fn string, eras []string) {
+	parts := []string{}
+	for _, e := range eras {
+		parts = append(parts, fmt.Sprintf("(\"%s\", \"%s\")", e, g1ForwardsTo(e, fn)))
+	}
+	l.pf("/-- what each era's `%s` forwards to after narrowing the parameter type (\"self\" = has its own body) -/\n", fn)
+	l.pf("def %s : List (String × String) := [%s]\n\n", leanName, strings.Join(parts, ", "))
+}
+
 func g1Delegations(l *leanFile, leanName, fn string, eras []string) {
 	parts := []string{}
 	for _, e := range eras {
@@ -344,6 +413,9 @@ func init() {
 		g1GuardFunc(l, g1Guard{"ledger/allegra", "UtxoValidateOutsideValidityIntervalUtxo", "allegraOutsideValidityInterval"})
 		g1Delegations(l, "validityDelegation", "UtxoValidateOutsideValidityIntervalUtxo",
 			[]string{"allegra", "mary", "alonzo", "babbage", "conway"})
+		g1Forwardings(l, "valueConservationDelegation", "UtxoValidateValueNotConservedUtxo", []string{"allegra", "dijkstra"})
+		g1Forwardings(l, "feeTooSmallDelegation", "UtxoValidateFeeTooSmallUtxo", []string{"allegra"})
+		g1Forwardings(l, "maxTxSizeDelegation", "UtxoValidateMaxTxSizeUtxo", []string{"allegra"})
 		g1CondFact(l, "ledger/conway", "UtxoValidateWithdrawals", "protocolMajor", "withdrawalsGateSkipped")
 		g1Delegations(l, "withdrawalsDelegation", "UtxoValidateWithdrawals", []string{"conway"})
 		l.pf("end GV.Gen.G1Rules\n")
